@@ -693,7 +693,11 @@ func explain(kops []op) (string, string) {
 	return "two clients observed the writes in incompatible orders", "incompatible-orders"
 }
 
-var raceFrame = regexp.MustCompile(`^\s+(github\.com/openGemini/openGemini/[^\s(]+(?:\([^)]*\))?[^\s(]*)\(`)
+// a frame line is "  <import path>.<function>()"; the function name itself may contain
+// parentheses more than once when a closure of an inlined method is reported, e.g.
+// engine/immutable.(*mergeTool).execute.func2.(*MergePerformers).Close.1() — take everything
+// up to the trailing "()"
+var raceFrame = regexp.MustCompile(`^\s+(github\.com/openGemini/openGemini/.+)\(\)\s*$`)
 
 // collectRaces parses the race detector's log files into signatures: the unordered pair
 // of the innermost openGemini functions of the two stacks.
